@@ -1,3 +1,134 @@
 import Srctools.Wire
-/-! stub driver (echo) — replaced when the property's model exists. -/
-def main : IO Unit := Wire.main fun j => pure j
+import Srctools.Model.C04
+import Srctools.Gen.Rot
+/-! Driver for the rotation-algebra model (C04), evaluated exactly over `Rat`.
+
+Numbers in:  `[n, k]` = n / 2^k (the exact value of a double).   Numbers out: `[num, den]`.
+requests:
+  {"op":"fromAngle"|"rx"|"ry"|"rz","a":[6 num]}          → {"m":[9 num]}
+  {"op":"matMul","m":[9],"o":[9]}                        → {"m":[9]}
+  {"op":"vecRot","v":[3],"m":[9]}                        → {"v":[3]}
+  {"op":"transpose","m":[9]}                             → {"m":[9]}
+  {"op":"toAngle","m":[9],"rad":[h,rp,rr,rg]}            → {"a":[6],"general":bool}
+  {"op":"inverse","m":[9]}                               → {"m":[9]|null}
+  {"op":"dispatch","fresh":b,"l":t,"r":t,"form":f,"lv":[…],"rv":[…],"rad":[4]}
+        → {"res":null} | {"res":t,"inplace":b,"formula":[kind,lconv,rconv,toAng],"val":[…]|null}
+  {"op":"table","fresh":b}                               → {"table":[[l,r,form,null|[res,inplace,kind,lconv,rconv,toAng]]…]}
+tags: 0 Vec 1 FrozenVec 2 tuple 3 Angle 4 FrozenAngle 5 Matrix 6 FrozenMatrix; forms: 0 @  1 @=  2 direct __rmatmul__.
+The threshold of `_to_angle` and the epsilon of `inverse` are the literals extracted into Gen/Rot.lean.
+-/
+open Lean C04
+
+def ratOf (j : Json) : Except String Rat := do
+  let a ← j.getArr?
+  if a.size != 2 then throw "number: need [n, k]"
+  let n ← (a[0]!).getInt?
+  let k ← (a[1]!).getNat?
+  pure (mkRat n (2 ^ k))
+
+def ratsOf (j : Json) (n : Nat) : Except String (Array Rat) := do
+  let a ← j.getArr?
+  if a.size != n then throw s!"need {n} numbers, got {a.size}"
+  a.mapM ratOf
+
+def ratJson (q : Rat) : Json :=
+  Json.arr #[Json.num (JsonNumber.fromInt q.num), Json.num (JsonNumber.fromNat q.den)]
+
+def matOfArr (a : Array Rat) : Mat Rat :=
+  ⟨a[0]!, a[1]!, a[2]!, a[3]!, a[4]!, a[5]!, a[6]!, a[7]!, a[8]!⟩
+def angOfArr (a : Array Rat) : Ang Rat := ⟨a[0]!, a[1]!, a[2]!, a[3]!, a[4]!, a[5]!⟩
+def vecOfArr (a : Array Rat) : V3 Rat := ⟨a[0]!, a[1]!, a[2]!⟩
+def radOfArr (a : Array Rat) : Radii Rat := ⟨a[0]!, a[1]!, a[2]!, a[3]!⟩
+
+def matJson (m : Mat Rat) : Json :=
+  Json.arr (#[m.aa, m.ab, m.ac, m.ba, m.bb, m.bc, m.ca, m.cb, m.cc].map ratJson)
+def angJson (a : Ang Rat) : Json := Json.arr (#[a.cp, a.sp, a.cy, a.sy, a.cr, a.sr].map ratJson)
+def vecJson (v : V3 Rat) : Json := Json.arr (#[v.x, v.y, v.z].map ratJson)
+
+def tagOf : Nat → Except String Tag
+  | 0 => pure .vec | 1 => pure .fvec | 2 => pure .tup | 3 => pure .ang
+  | 4 => pure .fang | 5 => pure .mat | 6 => pure .fmat
+  | n => throw s!"bad tag {n}"
+def tagNum : Tag → Nat
+  | .vec => 0 | .fvec => 1 | .tup => 2 | .ang => 3 | .fang => 4 | .mat => 5 | .fmat => 6
+def formOf : Nat → Except String Form
+  | 0 => pure .op | 1 => pure .iop | 2 => pure .refl
+  | n => throw s!"bad form {n}"
+def convNum : Conv → Nat
+  | .asIs => 0 | .fromAngle => 1 | .vecOfTuple => 2
+def kindNum : Kind → Nat
+  | .vecRot => 0 | .matMul => 1
+
+def valOf (t : Tag) (j : Json) : Except String (Val Rat) := do
+  if t.isAng then pure (.a (angOfArr (← ratsOf j 6)))
+  else if t.isMat then pure (.m (matOfArr (← ratsOf j 9)))
+  else pure (.v (vecOfArr (← ratsOf j 3)))
+
+def valJson : Val Rat → Json
+  | .v v => vecJson v
+  | .a a => angJson a
+  | .m m => matJson m
+
+def nat (n : Nat) : Json := Json.num (JsonNumber.fromNat n)
+
+def entryFields (e : Entry) : List Json :=
+  [nat (tagNum e.res), Json.bool e.inPlace, nat (kindNum e.f.kind), nat (convNum e.f.lconv),
+   nat (convNum e.f.rconv), Json.bool e.f.toAng]
+
+def allTags : List Tag := [.vec, .fvec, .tup, .ang, .fang, .mat, .fmat]
+def allForms : List (Nat × Form) := [(0, .op), (1, .iop), (2, .refl)]
+
+def handle (j : Json) : Except String Json := do
+  let op ← j.getObjValAs? String "op"
+  match op with
+  | "fromAngle" => pure (Json.mkObj [("m", matJson (fromAngle (angOfArr (← ratsOf (← j.getObjVal? "a") 6))))])
+  | "rx" => pure (Json.mkObj [("m", matJson (Rx (angOfArr (← ratsOf (← j.getObjVal? "a") 6))))])
+  | "ry" => pure (Json.mkObj [("m", matJson (Ry (angOfArr (← ratsOf (← j.getObjVal? "a") 6))))])
+  | "rz" => pure (Json.mkObj [("m", matJson (Rz (angOfArr (← ratsOf (← j.getObjVal? "a") 6))))])
+  | "matMul" =>
+    let m := matOfArr (← ratsOf (← j.getObjVal? "m") 9)
+    let o := matOfArr (← ratsOf (← j.getObjVal? "o") 9)
+    pure (Json.mkObj [("m", matJson (matMul m o))])
+  | "vecRot" =>
+    let v := vecOfArr (← ratsOf (← j.getObjVal? "v") 3)
+    let m := matOfArr (← ratsOf (← j.getObjVal? "m") 9)
+    pure (Json.mkObj [("v", vecJson (vecRot v m))])
+  | "transpose" =>
+    pure (Json.mkObj [("m", matJson (transpose (matOfArr (← ratsOf (← j.getObjVal? "m") 9))))])
+  | "toAngle" =>
+    let m := matOfArr (← ratsOf (← j.getObjVal? "m") 9)
+    let r := radOfArr (← ratsOf (← j.getObjVal? "rad") 4)
+    let (a, g) := toAngleB Gen.Rot.thr m r
+    pure (Json.mkObj [("a", angJson a), ("general", Json.bool g)])
+  | "inverse" =>
+    let m := matOfArr (← ratsOf (← j.getObjVal? "m") 9)
+    pure (Json.mkObj [("m", match gaussJordanInverse Gen.Rot.eps m with
+      | some n => matJson n
+      | none => Json.null)])
+  | "dispatch" =>
+    let fresh ← j.getObjValAs? Bool "fresh"
+    let l ← tagOf (← j.getObjValAs? Nat "l")
+    let r ← tagOf (← j.getObjValAs? Nat "r")
+    let f ← formOf (← j.getObjValAs? Nat "form")
+    match dispatch fresh l r f with
+    | none => pure (Json.mkObj [("res", Json.null)])
+    | some e =>
+      let lv ← valOf l (← j.getObjVal? "lv")
+      let rv ← valOf r (← j.getObjVal? "rv")
+      let rad := radOfArr (← ratsOf (← j.getObjVal? "rad") 4)
+      let val := match evalFormula Gen.Rot.thr e.f lv rv rad with
+        | some v => valJson v
+        | none => Json.null
+      pure (Json.mkObj [("res", nat (tagNum e.res)), ("inplace", Json.bool e.inPlace),
+        ("formula", Json.arr (entryFields e).toArray), ("val", val)])
+  | "table" =>
+    let fresh ← j.getObjValAs? Bool "fresh"
+    let rows := allTags.flatMap fun l => allTags.flatMap fun r => allForms.map fun (fn, f) =>
+      Json.arr #[nat (tagNum l), nat (tagNum r), nat fn,
+        match dispatch fresh l r f with
+        | none => Json.null
+        | some e => Json.arr (entryFields e).toArray]
+    pure (Json.mkObj [("table", Json.arr rows.toArray)])
+  | _ => throw s!"unknown op {op}"
+
+def main : IO Unit := Wire.main handle
